@@ -29,6 +29,11 @@ CHECKS["C03"] = dict(cat="other", technique="constant-table rules on rustc-evalu
     note="Trusted: rustc const evaluation and MIR construction, fact serialiser, documented Vec semantics. Not decided: exactness of the clipped region under float rounding, attribute values.",
     ref="§3 C03")
 
+CHECKS["C15"] = dict(cat="other", technique="builder recipes (provenance terms of push_face/push_vert arguments) evaluated over rustc-const-evaluated tables and checked as oriented 2-manifolds; UNIT-provenance abstract class; dominance and index-polynomial rules",
+    text="For the five table-driven builders (tetrahedron, box, octahedron, dodecahedron, icosahedron) the mesh each build() assembles is reconstructed from the recipe in its MIR over the tables the compiler evaluated, and checked cell by cell: indices valid, every directed edge once with its reverse once (closed, consistently oriented, watertight after merging), Euler characteristic 2, outward winding, unit vertex normals on the outward side, planar regular pentagons. For every solid including the lathe family: every normal handed to a vertex has UNIT provenance (normalize, unit literal/table entry, rotation of a unit vector, inductively through loops), every build() returns through mesh validation, parameter asserts guard construction, lathe quads tile p,p+1,p+n,p+n+1 with an oppositely traversed diagonal and the two cap fans are wound oppositely.",
+    note="Trusted: rustc const evaluation and MIR construction; documented meaning of normalize/to_pt/Neg/Lerp. Not decided: lathe topology, seam and poles for every sector count, radii/extents (index arithmetic over runtime counts plus float rounding). geom is analysed under the ws and std configurations (it needs an fp feature).",
+    ref="§3 C15")
+
 NA = {}
 
 
